@@ -50,6 +50,9 @@ pub struct Model {
     pub head_min_k: HashMap<(Scru128Id, String), u32>,
     /// (ctx, topic) that received an import after their last head append (C09 clause not claimed)
     pub imported_after_head: HashSet<(Scru128Id, String)>,
+    /// pairs whose pending head check was lost with the collector's queue in a crash: a later
+    /// head:N append only evicts by its own N, so the newest-frame clause cannot be judged
+    pub head_check_lost: HashSet<(Scru128Id, String)>,
     /// (ctx, topic) that ever received an import after a head append: an imported older frame
     /// may legitimately outlive a newer evicted one (order clause not claimed)
     pub imported_into_head_pair: HashSet<(Scru128Id, String)>,
@@ -186,6 +189,10 @@ impl Model {
         if topic.as_bytes().contains(&0) {
             return Tri::Absent;
         }
+        // the topic index key (context, topic, delimiter, id) must fit 65535 bytes
+        if topic.len() > 65535 - 33 {
+            return Tri::Absent;
+        }
         u
     }
 
@@ -219,6 +226,12 @@ impl Model {
             return;
         }
         self.insert(f, How::Appended);
+        // an imported frame with an id ahead of the clock makes id order and arrival order of
+        // the topic differ: "older" by id may then mean "appended after the eviction", and the
+        // head-order clause cannot be judged for this (context, topic) any more
+        if self.frames.values().any(|m| m.frame.context_id == f.context_id && m.frame.topic == f.topic && m.frame.id > f.id) {
+            self.imported_into_head_pair.insert((f.context_id, f.topic.clone()));
+        }
         if let Some(TTL::Head(k)) = f.ttl {
             let key = (f.context_id, f.topic.clone());
             let e = self.head_min_k.entry(key.clone()).or_insert(k);
